@@ -7,7 +7,9 @@ TRUSTED = [
     "Coq 8.16.1 kernel (coqc), vm_compute for case evaluation; no native_compute",
     "hand-written model props/C03/coq/Model.v of Chunks.Pack/unpack (on varint values), getLIDsBlockGenerator, "
     "lids.Table, IteratorAsc/IteratorDesc, sort.Search, the registry ext words, getTokensBlocksGenerator, "
-    "getIDsBlocksGenerator (tied to /repo by the correspondence run, not verified code)",
+    "getIDsBlocksGenerator, writeDocsInOrder/docBlocksWriter/DocPos/extractDocs (sorted-docs rewrite), registry "
+    "write + Loader.Load section walk (tied to /repo by the correspondence run, not verified code; the registry walk "
+    "only end to end through the reloaded form)",
     "Go harness harness/cmd/hC03 (generators, canonical forms of answers, brute-force oracle of the end-to-end part)",
     "outside the model: zstd/lz4, varint BYTE encoding, file I/O, caches (identity on their loader: C18), search "
     "evaluation (C02), pattern matching (C13): covered end-to-end by comparing the three real forms only",
@@ -15,7 +17,9 @@ TRUSTED = [
 ASSUME = [
     "posting lists are non-empty, strictly increasing, every LID < 2^32-1 (the end marker); block capacity > 0",
     "TIDs / block counts stay below 2^32 (registry ext word packs two uint32)",
-    "end-to-end form equality (search/hist/agg/fetch, sorted docs, caches) is tested, not proved (PARTIAL)",
+    "stored IDs are not the zero ID (the sealer's 'no previous ID'); compressed blocks have non-zero length",
+    "end-to-end form equality of whole answers (search evaluation, hist/agg, token dictionary, caches) and stability "
+    "of a preloaded fraction under later seals/reloads are tested, not proved (PARTIAL)",
 ]
 RULE = ("unit level with SMALL block capacities (1..8) so that every run has tokens ending exactly at a block end, "
         "tokens spanning 2..4 blocks, blocks with MinTID > MaxTID, uint32-edge LIDs: real generator -> real Pack -> real "
@@ -23,7 +27,9 @@ RULE = ("unit level with SMALL block capacities (1..8) so that every run has tok
         "dictionaries at k*16KiB +-1, tokens larger than a block; ID blocks at multiples of the block size. End to end: "
         "corpora with 65536/65537/131072 postings per token, 4096*k IDs, dictionaries at the 16 KiB threshold, three forms "
         "x cache sizes x sort-docs on/off. non-trivial = a token spans two blocks / >= 2 blocks / answer non-empty on a "
-        "block-straddling corpus; distinct by input")
+        "block-straddling corpus; distinct by input. Sorted-docs rewrite: real writeDocsInOrder + docBlocksWriter + DocsReader on "
+        "small files with block sizes 1..200 (several blocks, nested IDs). Chains of 3..5 seals in one manager: every preloaded "
+        "fraction re-asked after each later seal and after a reload")
 
 
 def harness_args(tier, seed, outdir):
